@@ -32,7 +32,7 @@ func handlerLiterals(p *Program) (out []struct {
 	Alloc *ssa.Alloc
 }) {
 	for _, f := range p.Scanned {
-		for _, b := range f.Blocks {
+		for _, b := range engine.BlocksInl(f) {
 			for _, in := range b.Instrs {
 				if a, ok := in.(*ssa.Alloc); ok && strings.HasSuffix(a.Type().String(), "cache.ResourceEventHandlerFuncs") {
 					out = append(out, struct {
@@ -72,7 +72,7 @@ func r14_1(r *Report, p *Program) {
 	// the customize manager enqueues through a function value: treat functions calling p0.enqueueParent as reaching Add when every constructor call passes an enqueueing method
 	viaField := map[*ssa.Function]bool{}
 	for _, f := range p.Scanned {
-		for _, b := range f.Blocks {
+		for _, b := range engine.BlocksInl(f) {
 			for _, in := range b.Instrs {
 				if c, ok := in.(*ssa.Call); ok && strings.HasSuffix(E(c.Common().Value), ".enqueueParent") && engine.CallKey(c.Common()) == "" {
 					viaField[f] = true
@@ -147,7 +147,7 @@ func r14_1(r *Report, p *Program) {
 		}
 		if strings.Contains(pk, "composite") {
 			var goI ssa.Instruction
-			for _, b := range st.Blocks {
+			for _, b := range engine.BlocksInl(st) {
 				for _, in := range b.Instrs {
 					if _, isGo := in.(*ssa.Go); isGo {
 						goI = in
@@ -505,7 +505,7 @@ func loopKeepTable2(f *ssa.Function, check func(pa engine.Path, appends int) (bo
 // DeletedFinalStateUnknown VALUE whose Obj is *Unstructured, and forwards in both cases.
 func tombstoneUnwrap(r *Report, p *Program, rule string, f *ssa.Function, enq func(in ssa.Instruction) bool) {
 	var asserts []string
-	for _, b := range f.Blocks {
+	for _, b := range engine.BlocksInl(f) {
 		for _, in := range b.Instrs {
 			if ta, ok := in.(*ssa.TypeAssert); ok && ta.CommaOk {
 				asserts = append(asserts, ta.AssertedType.String()+"←"+E(ta.X))
@@ -531,7 +531,7 @@ func tombstoneUnwrap(r *Report, p *Program, rule string, f *ssa.Function, enq fu
 	if ok {
 		// the tombstone branch reaches the forwarding call
 		var from []engine.Point
-		for _, b := range f.Blocks {
+		for _, b := range engine.BlocksInl(f) {
 			for i := range b.Succs {
 				if l, has := engine.EdgeLit(b, i); has && l.Pos && strings.HasPrefix(l.Atom, "assert<*unstructured.Unstructured>(") && strings.Contains(l.Atom, ".Obj") {
 					from = append(from, engine.Point{B: b.Succs[i]})
@@ -615,7 +615,7 @@ func r14_4(r *Report, p *Program) {
 			for _, cs := range callsTo(f, false, "customize.matchesRelatedRule") {
 				m := engine.ResultValue(cs.Instr, 0)
 				var from []engine.Point
-				for _, b := range f.Blocks {
+				for _, b := range engine.BlocksInl(f) {
 					for i := range b.Succs {
 						if l, has := engine.EdgeLit(b, i); has && l.Pos && engine.SameValue(l.Cond, m) {
 							from = append(from, engine.Point{B: b.Succs[i]})
@@ -648,7 +648,7 @@ func r14_4(r *Report, p *Program) {
 			}
 			// on a miss the hook IS called: no return on the miss edge without the call
 			var from []engine.Point
-			for _, b := range f.Blocks {
+			for _, b := range engine.BlocksInl(f) {
 				for i := range b.Succs {
 					if l, has := engine.EdgeLit(b, i); has && !l.Pos && strings.HasSuffix(l.Atom, ".getCachedCustomizeHookResponse)(p0, p1)#1") {
 						from = append(from, engine.Point{B: b.Succs[i]})
